@@ -2886,6 +2886,16 @@ def transform_compressible(items, constants, labels):
                 new_items.append(item)
                 continue
 
+        # the offset to an absolute address held in a constant is the exception:
+        # it GROWS when earlier items shrink, so it cannot be decided early either
+        imm = getattr(item, 'imm', None)
+        while isinstance(imm, (Hi, Lo)):
+            imm = imm.expr
+        if isinstance(imm, Offset) and imm.reference in constants:
+            position += item.size()
+            new_items.append(item)
+            continue
+
         # check if any set of criteria is all true for this item
         compressed = None
         try:
